@@ -47,6 +47,8 @@ TVARIANT = {
     "multi/f3.go": "package multi\n\nimport \"m/lib\"\n\n// @ignore IMM01\nfunc f3(t *lib.T) {\n\tt.X = 13\n}\n",
     "multi/f4.go": "package multi\n\nimport \"m/lib\"\n\nfunc f4(t *lib.T) {\n\tt.X = 14 // @ignore IMM01\n}\n",
     "multi/f5.go": "package multi\n\nimport \"m/lib\"\n\nfunc f5(t *lib.T) {\n\tt.X = 15 // @ignore IMM01\n\tt.X = 16\n}\n",
+    # a second package with @ignore comments (suppressed and unsuppressed writes)
+    "multi2/g.go": "package multi2\n\nimport \"m/lib\"\n\nfunc g1(t *lib.T) {\n\tt.X = 21 // @ignore IMM01\n\tt.X = 22\n}\n\n// @ignore IMM\nfunc g2(t *lib.T) {\n\tt.X = 23\n}\n",
     "other/o.go": "package other\n\n// O is unrelated.\n// @immutable\ntype O struct{ X int }\n\nfunc f(o *O) {\n\to.X = 4\n}\n",
 }
 
@@ -231,7 +233,7 @@ def run(ctx):
     if fail:
         ctx.violation("black-box run failed: %s" % fail, {"kind": "blackbox", "args": ["./..."]})
         base = {}
-    pk = ["./d", "./u", "./w", "./lib/...", "./app", "./zapp", "./other", "./core", "./x/svc", "./y/svc", "./zo", "./gen", "./multi"]
+    pk = ["./d", "./u", "./w", "./lib/...", "./app", "./zapp", "./other", "./core", "./x/svc", "./y/svc", "./zo", "./gen", "./multi", "./multi2"]
     if len(base.get("multi", ())) != 1 or not base.get("gen"):
         raise vlib.ToolError("the black-box module does not show the expected diagnostics in m/multi (1) and m/gen: %s %s" % (base.get("multi"), base.get("gen")))
     if not base.get("zo"):
@@ -261,7 +263,7 @@ def run(ctx):
             # every package that is named in this run must get exactly the diagnostics of the reference run
             named_dirs = set()
             for a in args:
-                named_dirs |= {"d", "u", "w", "lib", "app", "zapp", "other", "core", "x", "y", "zo", "gen", "multi"} if a == "./..." else {a.strip("./").split("/")[0]}
+                named_dirs |= {"d", "u", "w", "lib", "app", "zapp", "other", "core", "x", "y", "zo", "gen", "multi", "multi2"} if a == "./..." else {a.strip("./").split("/")[0]}
             for dpk in named_dirs:
                 if got.get(dpk, set()) != base.get(dpk, set()):
                     g2, f2 = bb(args, env, flags)
@@ -278,6 +280,25 @@ def run(ctx):
                                       {"kind": "blackbox", "args": args, "flags": list(flags), "env": env, "package": dpk,
                                        "only_in_reference": only_ref, "only_in_this_run": only_run})
                     break
+    # (c2) the same under a project-wide exclusion that matches nothing here (exclude-checks=IMPL02): packages with @ignore comments of
+    # their own, listed in different orders and alone
+    xflags = ("--config.exclude-checks=IMPL02",)
+    base2, fail2 = bb(["./..."], None, xflags)
+    if fail2:
+        raise vlib.ToolError("black-box reference run with exclude-checks failed: %s" % fail2)
+    for args in (["./multi", "./multi2", "./lib/..."], ["./multi2", "./multi", "./lib/..."], ["./lib/...", "./multi2", "./multi"], ["./multi"], ["./multi2"],
+                 ["./multi", "./multi2", "./lib/..."]):
+        for fl in (xflags, xflags + ("-debug=p",)):
+            got, fail = bb(args, None, fl)
+            nrun += 1
+            dirs = {a.strip("./").split("/")[0] for a in args}
+            if (fail or any(got.get(d, set()) != base2.get(d, set()) for d in dirs)) and len(ctx.violations) < 3:
+                diff = {d: (sorted(x[:3] for x in base2.get(d, set()) - (got or {}).get(d, set())), sorted(x[:3] for x in (got or {}).get(d, set()) - base2.get(d, set())))
+                        for d in dirs if (got or {}).get(d, set()) != base2.get(d, set())}
+                ctx.violation("with %s, arguments %s %s: %s (per package: only in the reference run ./..., only in this run): %s"
+                              % (xflags[0], args, list(fl[1:]), fail or "the diagnostics of a package depend on the run set / order", diff),
+                              {"kind": "blackbox", "args": args, "flags": list(fl)})
+
     # (d) a go.work workspace with two independent modules: the diagnostics of each module do not depend on the other being in the run
     ws = os.path.join(ctx.scratch, "ws")
     wsfiles = {
